@@ -765,6 +765,8 @@ func wkPkgLevelWrites(repo string) (string, error) {
 //	total       defined alone (`v := f(...)`): nothing can have failed
 //	param       a parameter of the function (the callers are store sites of their own: calls of *CachedPackage methods)
 //	table-copy  the key / value of a `for k, v := range table` loop
+//	absent      the literal nil stored as a MARKER ("the first place to look has nothing"), in a function whose read of the same
+//	            table serves an entry only when it is not nil: `v, ok := table[key]` followed by `if ok && v != nil { return v, nil }`
 //	expr        anything else
 //
 // Syntactic, per function of ruleguard/engine.go and ruleguard/importer.go; stores into local maps are not listed.
@@ -805,10 +807,41 @@ func wkCacheStores(repo string) (string, error) {
 			var frames []frame
 			var conds []string
 			ranged := map[string]bool{}
+			// tables whose entries this function serves only when they are not nil
+			nilGuarded := map[string]bool{}
+			ast.Inspect(fd.Body, func(n ast.Node) bool {
+				bl, ok := n.(*ast.BlockStmt)
+				if !ok {
+					return true
+				}
+				for i := 0; i+1 < len(bl.List); i++ {
+					as, ok := bl.List[i].(*ast.AssignStmt)
+					if !ok || as.Tok != token.DEFINE || len(as.Lhs) != 2 || len(as.Rhs) != 1 {
+						continue
+					}
+					ix, ok := as.Rhs[0].(*ast.IndexExpr)
+					if !ok {
+						continue
+					}
+					ifs, ok := bl.List[i+1].(*ast.IfStmt)
+					if !ok || ifs.Init != nil || ifs.Else != nil || len(ifs.Body.List) != 1 {
+						continue
+					}
+					v, okName := wkSrc(fset, as.Lhs[0]), wkSrc(fset, as.Lhs[1])
+					if wkSrc(fset, ifs.Cond) == okName+" && "+v+" != nil" && wkSrc(fset, ifs.Body.List[0]) == "return "+v+", nil" {
+						nilGuarded[wkSrc(fset, ix.X)] = true
+					}
+				}
+				return true
+			})
+			curTable := ""
 			classify := func(v ast.Expr) string {
 				id, ok := v.(*ast.Ident)
 				if !ok {
 					return "expr"
+				}
+				if id.Name == "nil" && curTable != "" && nilGuarded[curTable] {
+					return "absent"
 				}
 				for fi := len(frames) - 1; fi >= 0; fi-- {
 					fr := frames[fi]
@@ -879,7 +912,9 @@ func wkCacheStores(repo string) (string, error) {
 					if len(s.Lhs) == 1 && len(s.Rhs) == 1 {
 						if ix, ok := s.Lhs[0].(*ast.IndexExpr); ok {
 							if se, ok := ix.X.(*ast.SelectorExpr); ok {
+								curTable = wkSrc(fset, se)
 								sites = append(sites, fname+":"+wkSrc(fset, se)+"|"+classify(s.Rhs[0]))
+								curTable = ""
 							}
 						}
 					}
